@@ -23,10 +23,10 @@ open QipVerif.Route
 /-! ## one handled gate -/
 
 /-- **(i) indices.** Every qubit index of every gate emitted for a handled gate is `< N`. -/
-theorem route_in_range (cc : Bool) (N : Nat) (setup : Setup)
-    (g : Route.Gate) (hw : WellFormed N g) (hh : Handled g) (out : List Route.Gate)
-    (ho : routeGateV (.rep cc) N setup g = .ok out) : ∀ h ∈ out, ∀ q ∈ h.qubits, q < N := by
-  obtain ⟨out', S, G, a, b, h1, -, -, ha, hb, hr, -, hq, -⟩ := routeGateV_handled_spec cc N setup g hw hh
+theorem route_in_range (cc rz : Bool) (N : Nat) (setup : Setup)
+    (g : Route.Gate) (hw : WellFormedV rz N g) (hh : HandledV rz g) (out : List Route.Gate)
+    (ho : routeGateV (.rep cc rz) N setup g = .ok out) : ∀ h ∈ out, ∀ q ∈ h.qubits, q < N := by
+  obtain ⟨out', S, G, a, b, h1, -, -, ha, hb, hr, -, hq, -⟩ := routeGateV_handled_spec cc rz N setup g hw hh
   rw [h1] at ho; cases ho
   intro h hm q hq'
   rcases hr.mem hm with rfl | ⟨p, hp, rfl⟩
@@ -48,11 +48,11 @@ example : WellFormed 9 ⟨.CNOT, [0], [5], 0, 0⟩ ∧ Handled ⟨.CNOT, [0], [5
 /-- **(ii) adjacency.** Every gate emitted for a handled gate is a two-qubit gate on neighbours of
 the topology the `setup` string is routed on (`Setup.eff`): `(i, i+1)`, or the wrap pair `{0, N-1}`
 on a ring. -/
-theorem route_adjacent (cc : Bool) (N : Nat) (setup : Setup)
-    (g : Route.Gate) (hw : WellFormed N g) (hh : Handled g) (out : List Route.Gate)
-    (ho : routeGateV (.rep cc) N setup g = .ok out) :
+theorem route_adjacent (cc rz : Bool) (N : Nat) (setup : Setup)
+    (g : Route.Gate) (hw : WellFormedV rz N g) (hh : HandledV rz g) (out : List Route.Gate)
+    (ho : routeGateV (.rep cc rz) N setup g = .ok out) :
     ∀ h ∈ out, ∃ i j, h.qubits = [i, j] ∧ Adj setup.eff N i j := by
-  obtain ⟨out', S, G, a, b, h1, -, -, -, -, hr, -, hq, -⟩ := routeGateV_handled_spec cc N setup g hw hh
+  obtain ⟨out', S, G, a, b, h1, -, -, -, -, hr, -, hq, -⟩ := routeGateV_handled_spec cc rz N setup g hw hh
   rw [h1] at ho; cases ho
   intro h hm
   rcases hr.mem hm with rfl | ⟨p, hp, rfl⟩
@@ -68,16 +68,16 @@ example : Adj .circular 9 8 0 ∧ ¬ Adj .linear 9 8 0 ∧ Adj .linear 9 6 7 ∧
 neighbouring in-range qubits, `S' = S` reversed; `G` has the gate's name, its control is where `S`
 moved the control and its target where `S` moved the target; `S ++ S'` is the identity permutation.
 `G` carries the gate's classical condition iff `cc` (`Variant.cond`); the SWAPs never carry one. -/
-theorem route_shape_ctl (cc : Bool) (N : Nat) (setup : Setup)
+theorem route_shape_ctl (cc rz : Bool) (N : Nat) (setup : Setup)
     (g : Route.Gate) (c t : Nat) (hnm : g.name.isCtl = true) (hC : g.controls = [c]) (hT : g.targets = [t])
     (hct : c ≠ t) (hc : c < N) (ht : t < N) :
     ∃ S : List (Nat × Nat),
-      routeGateV (.rep cc) N setup g =
+      routeGateV (.rep cc rz) N setup g =
         .ok (swaps S ++ ⟨g.name, [track S c], [track S t], 0, if cc then g.extra else 0⟩ :: swaps S.reverse) ∧
       (∀ p ∈ S, p.1 < N ∧ p.2 < N ∧ p.1 ≠ p.2 ∧ Adj setup.eff N p.1 p.2) ∧
       Adj setup.eff N (track S c) (track S t) ∧
       ∀ x, track (S ++ S.reverse) x = x := by
-  obtain ⟨out, S, h1, h2⟩ := routeCtl_specV cc N setup g c t hnm hC hT hct hc ht
+  obtain ⟨out, S, h1, h2⟩ := routeCtl_specV cc rz N setup g c t hnm hC hT hct hc ht
   exact ⟨S, by rw [routeGateV_ctl hnm hC hT, h1, h2.out_eq]; rfl, h2.swaps_ok, h2.adj, track_palindrome S⟩
 
 example : ∃ S, S = [(4, 5), (6, 0)] ∧ track S 4 = 5 ∧ track S 0 = 6 ∧
@@ -88,32 +88,62 @@ example : ∃ S, S = [(4, 5), (6, 0)] ∧ track S 4 = 5 ∧ track S 0 = 6 ∧
 /-- **(iii) shape, exchange-type gates** (SWAP, ISWAP, SQRTISWAP, SQRTSWAP, BERKELEY, SWAPalpha):
 as above; `G` keeps name and argument and acts on the images of the two targets, listed in one
 of the two orders (these gates are symmetric, see `SwapLaws.exch_symm`). -/
-theorem route_shape_swp (cc : Bool) (N : Nat) (setup : Setup)
+theorem route_shape_swp (cc rz : Bool) (N : Nat) (setup : Setup)
     (g : Route.Gate) (t0 t1 : Nat) (hnm : g.name.isSwp = true) (hT : g.targets = [t0, t1])
     (h01 : t0 ≠ t1) (h0 : t0 < N) (h1 : t1 < N) :
     ∃ (S : List (Nat × Nat)) (p q : Nat),
-      routeGateV (.rep cc) N setup g =
+      routeGateV (.rep cc rz) N setup g =
         .ok (swaps S ++ ⟨g.name, [], [p, q], g.arg, if cc then g.extra else 0⟩ :: swaps S.reverse) ∧
       ((p = track S t0 ∧ q = track S t1) ∨ (p = track S t1 ∧ q = track S t0)) ∧
       (∀ p ∈ S, p.1 < N ∧ p.2 < N ∧ p.1 ≠ p.2 ∧ Adj setup.eff N p.1 p.2) ∧
       Adj setup.eff N (track S t0) (track S t1) ∧
       ∀ x, track (S ++ S.reverse) x = x := by
-  obtain ⟨S, p, q, h2, h3⟩ := routeSwp_specV cc N setup g t0 t1 h01 h0 h1
-  exact ⟨S, p, q, by rw [routeGateV_swp hnm hT, h2.out_eq]; rfl, h3, h2.swaps_ok, h2.adj, track_palindrome S⟩
+  obtain ⟨S, p, q, h2, h3⟩ := routeSwp_specV cc rz N setup g t0 t1 h01 h0 h1
+  refine ⟨S, p, q, by rw [routeGateV_swp hnm hT, h2.out_eq]; rfl, ?_, h2.swaps_ok, h2.adj, track_palindrome S⟩
+  rcases h3 with h | ⟨-, h⟩
+  · exact Or.inl h
+  · exact Or.inr h
 
 example : routeGate 6 .linear ⟨.SWAPalpha, [], [5, 1], 7, 0⟩ =
     .ok (swaps [(1, 2), (4, 5), (2, 3)] ++ ⟨.SWAPalpha, [], [3, 4], 7, 0⟩ :: swaps [(2, 3), (4, 5), (1, 2)]) := by
   decide
+
+/-- **(iii) shape, ordered two-target gates (RZX)** — routed since `fixes/C13-3.patch` (`rz = true`): as
+for the exchange-type gates, but `G` lists the images of the two targets **in the order of the
+targets** (RZX is not symmetric: Z acts on the first, X on the second target), on the forward path
+and on the way round the ring alike. -/
+theorem route_shape_ord (cc : Bool) (N : Nat) (setup : Setup)
+    (g : Route.Gate) (t0 t1 : Nat) (hnm : g.name.isOrd = true) (hT : g.targets = [t0, t1])
+    (h01 : t0 ≠ t1) (h0 : t0 < N) (h1 : t1 < N) :
+    ∃ S : List (Nat × Nat),
+      routeGateV (.rep cc true) N setup g =
+        .ok (swaps S ++ ⟨g.name, [], [track S t0, track S t1], g.arg, if cc then g.extra else 0⟩ :: swaps S.reverse) ∧
+      (∀ p ∈ S, p.1 < N ∧ p.2 < N ∧ p.1 ≠ p.2 ∧ Adj setup.eff N p.1 p.2) ∧
+      Adj setup.eff N (track S t0) (track S t1) ∧
+      ∀ x, track (S ++ S.reverse) x = x := by
+  obtain ⟨S, p, q, h2, h3⟩ := routeSwp_specV cc true N setup g t0 t1 h01 h0 h1
+  rcases h3 with ⟨rfl, rfl⟩ | ⟨hf, -, -⟩
+  · exact ⟨S, by rw [routeGateV_ord hnm hT, h2.out_eq]; rfl, h2.swaps_ok, h2.adj, track_palindrome S⟩
+  · simp [hnm] at hf
+
+-- both target orders on an open chain and the way round a ring; without the repair RZX is passed through
+example : routeGateV (.rep false true) 4 .linear ⟨.RZX, [], [3, 0], 7, 0⟩ =
+      .ok [swapG 0 1, swapG 2 3, ⟨.RZX, [], [2, 1], 7, 0⟩, swapG 2 3, swapG 0 1] ∧
+    routeGateV (.rep false true) 4 .linear ⟨.RZX, [], [0, 3], 7, 0⟩ =
+      .ok [swapG 0 1, swapG 2 3, ⟨.RZX, [], [1, 2], 7, 0⟩, swapG 2 3, swapG 0 1] ∧
+    routeGateV (.rep false true) 5 .circular ⟨.RZX, [], [0, 3], 7, 0⟩ =
+      .ok [swapG 3 4, ⟨.RZX, [], [0, 4], 7, 0⟩, swapG 3 4] ∧
+    routeGateV (.rep false false) 4 .linear ⟨.RZX, [], [3, 0], 7, 0⟩ = .ok [⟨.RZX, [], [3, 0], 7, 0⟩] := by decide
 
 /-- **Any other `setup` string** (the code compares with `"linear"` and `"circular"` only and raises
 nothing): the gate is routed **on the ring, always through the wrap-around pair** — the backward
 path, whatever the distance.  Indices are in range, every emitted gate acts on ring neighbours
 (an instance of (i), (ii) with `Setup.other.eff = circular`); the output is in general neither that
 of `"linear"` nor that of `"circular"` (examples below).  (v) holds for it as well (`route_den`). -/
-theorem route_other_setup (cc : Bool) (N : Nat) (g : Route.Gate) (hw : WellFormed N g) (hh : Handled g)
-    (out : List Route.Gate) (ho : routeGateV (.rep cc) N .other g = .ok out) :
+theorem route_other_setup (cc rz : Bool) (N : Nat) (g : Route.Gate) (hw : WellFormedV rz N g) (hh : HandledV rz g)
+    (out : List Route.Gate) (ho : routeGateV (.rep cc rz) N .other g = .ok out) :
     (∀ h ∈ out, ∀ q ∈ h.qubits, q < N) ∧ ∀ h ∈ out, ∃ i j, h.qubits = [i, j] ∧ Adj .circular N i j :=
-  ⟨route_in_range cc N .other g hw hh out ho, route_adjacent cc N .other g hw hh out ho⟩
+  ⟨route_in_range cc rz N .other g hw hh out ho, route_adjacent cc rz N .other g hw hh out ho⟩
 
 -- neighbours 0, 1 on four qubits: "linear" and "circular" leave the gate alone, any other string
 -- walks it round the ring through (3, 0); an exchange gate on the wrap pair comes out with its
@@ -128,10 +158,11 @@ example : routeGate 4 .other ⟨.CNOT, [0], [1], 0, 0⟩ =
 /-! ## pass-through and circuits -/
 
 /-- **(iv)** a gate the router does not handle (any other name, a measurement) comes out as it is -/
-theorem route_passthrough (cc : Bool) (N : Nat) (setup : Setup) (g : Route.Gate) (h : ¬ Handled g) :
-    routeGateV (.rep cc) N setup g = .ok [g] := routeGateV_other h
+theorem route_passthrough (cc rz : Bool) (N : Nat) (setup : Setup) (g : Route.Gate) (h : ¬ HandledV rz g) :
+    routeGateV (.rep cc rz) N setup g = .ok [g] := routeGateV_other h
 
-example : ¬ Handled ⟨.other 3, [0, 4], [2], 5, 1⟩ ∧ ¬ Handled ⟨.meas 0, [], [1], 0, 0⟩ := by decide
+example : ¬ HandledV true ⟨.other 3, [0, 4], [2], 5, 1⟩ ∧ ¬ HandledV true ⟨.meas 0, [], [1], 0, 0⟩ ∧
+    ¬ HandledV false ⟨.RZX, [], [0, 2], 1, 0⟩ ∧ HandledV true ⟨.RZX, [], [0, 2], 1, 0⟩ := by decide
 
 /-- **(iv)** the output of a circuit is the concatenation, in order, of the per-gate outputs — for
 every variant of the code: the router keeps **no state** between gates (nor between calls: the
@@ -153,40 +184,40 @@ example : toChain 7 .circular [⟨.CNOT, [0], [4], 0, 0⟩, ⟨.CNOT, [4], [0], 
          [swapG 4 5, swapG 6 0, ⟨.CNOT, [5], [6], 0, 0⟩, swapG 6 0, swapG 4 5]) := by decide
 
 /-- routing a circuit of well-formed gates never raises -/
-theorem route_total (cc : Bool) (N : Nat) (setup : Setup)
-    (gs : List Route.Gate) (hw : ∀ g ∈ gs, WellFormed N g) : ∃ out, toChainV (.rep cc) N setup gs = .ok out :=
-  toChainV_total cc N setup gs hw
+theorem route_total (cc rz : Bool) (N : Nat) (setup : Setup)
+    (gs : List Route.Gate) (hw : ∀ g ∈ gs, WellFormedV rz N g) : ∃ out, toChainV (.rep cc rz) N setup gs = .ok out :=
+  toChainV_total cc rz N setup gs hw
 
 /-- **(iv)** the unhandled gates of the output are exactly those of the input, unchanged and in order -/
-theorem circuit_passthrough_order (cc : Bool) (N : Nat) (setup : Setup)
-    (gs : List Route.Gate) (hw : ∀ g ∈ gs, WellFormed N g) (out : List Route.Gate)
-    (ho : toChainV (.rep cc) N setup gs = .ok out) :
-    out.filter (fun h => !decide (Handled h)) = gs.filter (fun h => !decide (Handled h)) :=
-  toChainV_unhandled_order cc N setup gs hw out ho
+theorem circuit_passthrough_order (cc rz : Bool) (N : Nat) (setup : Setup)
+    (gs : List Route.Gate) (hw : ∀ g ∈ gs, WellFormedV rz N g) (out : List Route.Gate)
+    (ho : toChainV (.rep cc rz) N setup gs = .ok out) :
+    out.filter (fun h => !decide (HandledV rz h)) = gs.filter (fun h => !decide (HandledV rz h)) :=
+  toChainV_unhandled_order cc rz N setup gs hw out ho
 
 /-- **(i) for circuits.** If the unhandled input gates are in range, every index of the output is. -/
-theorem circuit_in_range (cc : Bool) (N : Nat) (setup : Setup)
-    (gs : List Route.Gate) (hw : ∀ g ∈ gs, WellFormed N g)
-    (hr : ∀ g ∈ gs, ¬ Handled g → ∀ q ∈ g.qubits, q < N)
-    (out : List Route.Gate) (ho : toChainV (.rep cc) N setup gs = .ok out) : ∀ h ∈ out, ∀ q ∈ h.qubits, q < N := by
+theorem circuit_in_range (cc rz : Bool) (N : Nat) (setup : Setup)
+    (gs : List Route.Gate) (hw : ∀ g ∈ gs, WellFormedV rz N g)
+    (hr : ∀ g ∈ gs, ¬ HandledV rz g → ∀ q ∈ g.qubits, q < N)
+    (out : List Route.Gate) (ho : toChainV (.rep cc rz) N setup gs = .ok out) : ∀ h ∈ out, ∀ q ∈ h.qubits, q < N := by
   intro h hm
   obtain ⟨g, hg, a, ha, hma⟩ := toChainV_mem ho hm
-  by_cases hh : Handled g
-  · exact route_in_range cc N setup g (hw g hg) hh a ha h hma
+  by_cases hh : HandledV rz g
+  · exact route_in_range cc rz N setup g (hw g hg) hh a ha h hma
   · rw [routeGateV_other hh] at ha; cases ha
     simp at hma; subst hma
     exact hr h hg hh
 
 /-- **(ii) for circuits.** Every gate of the output is an unhandled gate of the input or a
 two-qubit gate on neighbours. -/
-theorem circuit_adjacent (cc : Bool) (N : Nat) (setup : Setup)
-    (gs : List Route.Gate) (hw : ∀ g ∈ gs, WellFormed N g)
-    (out : List Route.Gate) (ho : toChainV (.rep cc) N setup gs = .ok out) :
-    ∀ h ∈ out, (h ∈ gs ∧ ¬ Handled h) ∨ ∃ i j, h.qubits = [i, j] ∧ Adj setup.eff N i j := by
+theorem circuit_adjacent (cc rz : Bool) (N : Nat) (setup : Setup)
+    (gs : List Route.Gate) (hw : ∀ g ∈ gs, WellFormedV rz N g)
+    (out : List Route.Gate) (ho : toChainV (.rep cc rz) N setup gs = .ok out) :
+    ∀ h ∈ out, (h ∈ gs ∧ ¬ HandledV rz h) ∨ ∃ i j, h.qubits = [i, j] ∧ Adj setup.eff N i j := by
   intro h hm
   obtain ⟨g, hg, a, ha, hma⟩ := toChainV_mem ho hm
-  by_cases hh : Handled g
-  · exact Or.inr (route_adjacent cc N setup g (hw g hg) hh a ha h hma)
+  by_cases hh : HandledV rz g
+  · exact Or.inr (route_adjacent cc rz N setup g (hw g hg) hh a ha h hma)
   · rw [routeGateV_other hh] at ha; cases ha
     simp at hma; subst hma
     exact Or.inl ⟨hg, hh⟩
@@ -205,31 +236,31 @@ the one hypothesis `SwapLaws` (SWAP on two distinct qubits squares to one and co
 relabels a two-qubit gate by the transposition; exchange-type gates are symmetric), the product
 of the routed gates is the gate.  Every `setup`.  `hx`: as long as the router drops classical
 conditions (`cc = false`) the gate must not carry one (`C07_counterexample_condition_dropped`). -/
-theorem route_den_gate {N : Nat} {interp : Route.Gate → M} (laws : SwapLaws N interp) (cc : Bool) (setup : Setup)
-    (g : Route.Gate) (hw : WellFormed N g) (hh : Handled g)
+theorem route_den_gate {N : Nat} {interp : Route.Gate → M} (laws : SwapLaws N interp) (cc rz : Bool) (setup : Setup)
+    (g : Route.Gate) (hw : WellFormedV rz N g) (hh : HandledV rz g)
     (hp : PlainArg g) (hx : cc = false → g.extra = 0) (out : List Route.Gate)
-    (ho : routeGateV (.rep cc) N setup g = .ok out) :
+    (ho : routeGateV (.rep cc rz) N setup g = .ok out) :
     den interp out = interp g :=
-  routeGateV_den laws cc setup g hw hh hp hx out ho
+  routeGateV_den laws cc rz setup g hw hh hp hx out ho
 
 /-- **(v) route_den.** The routed circuit has the same product as the input circuit. -/
-theorem route_den {N : Nat} {interp : Route.Gate → M} (laws : SwapLaws N interp) (cc : Bool) (setup : Setup)
-    (gs : List Route.Gate) (hw : ∀ g ∈ gs, WellFormed N g)
-    (hp : ∀ g ∈ gs, Handled g → PlainArg g) (hx : cc = false → ∀ g ∈ gs, Handled g → g.extra = 0)
-    (out : List Route.Gate) (ho : toChainV (.rep cc) N setup gs = .ok out) :
+theorem route_den {N : Nat} {interp : Route.Gate → M} (laws : SwapLaws N interp) (cc rz : Bool) (setup : Setup)
+    (gs : List Route.Gate) (hw : ∀ g ∈ gs, WellFormedV rz N g)
+    (hp : ∀ g ∈ gs, HandledV rz g → PlainArg g) (hx : cc = false → ∀ g ∈ gs, HandledV rz g → g.extra = 0)
+    (out : List Route.Gate) (ho : toChainV (.rep cc rz) N setup gs = .ok out) :
     den interp out = den interp gs :=
-  toChainV_den laws cc setup gs hw hp hx out ho
+  toChainV_den laws cc rz setup gs hw hp hx out ho
 
 /-- **(v) with classical conditions** (`fixes/C07-5.patch`, `cc = true`): for every valuation `fire` of
 the classical conditions — a conditioned gate is its operator if the condition holds and the
 identity otherwise (`condInterp`) — the routed circuit has the same product; no gate is excluded.
 (The SWAPs are unconditional; if the condition does not hold they cancel.) -/
 theorem route_den_cond {N : Nat} {interp : Route.Gate → M} (laws : SwapLaws N interp) (fire : Nat → Bool)
-    (setup : Setup) (gs : List Route.Gate) (hw : ∀ g ∈ gs, WellFormed N g)
-    (hp : ∀ g ∈ gs, Handled g → PlainArg g)
-    (out : List Route.Gate) (ho : toChainV (.rep true) N setup gs = .ok out) :
+    (rz : Bool) (setup : Setup) (gs : List Route.Gate) (hw : ∀ g ∈ gs, WellFormedV rz N g)
+    (hp : ∀ g ∈ gs, HandledV rz g → PlainArg g)
+    (out : List Route.Gate) (ho : toChainV (.rep true rz) N setup gs = .ok out) :
     den (condInterp fire interp) out = den (condInterp fire interp) gs :=
-  toChainV_den (laws.cond fire) true setup gs hw hp (fun h => absurd h (by decide)) out ho
+  toChainV_den (laws.cond fire) true rz setup gs hw hp (fun h => absurd h (by decide)) out ho
 end
 
 -- the hypotheses are met by a concrete non-trivial circuit (the second gate carries condition 3)
@@ -237,7 +268,7 @@ example : (∀ g ∈ [⟨.other 1, [], [3], 2, 0⟩, ⟨.CNOT, [0], [5], 0, 3⟩
       WellFormed 9 g) ∧
     (∀ g ∈ [⟨.other 1, [], [3], 2, 0⟩, ⟨.CNOT, [0], [5], 0, 3⟩, (⟨.SWAPalpha, [], [7, 2], 4, 0⟩ : Route.Gate)],
       Handled g → PlainArg g) ∧
-    toChainV (.rep true) 9 .circular [⟨.CNOT, [0], [5], 0, 3⟩] =
+    toChainV (.rep true false) 9 .circular [⟨.CNOT, [0], [5], 0, 3⟩] =
       .ok [swapG 5 6, swapG 8 0, swapG 6 7, ⟨.CNOT, [8], [7], 0, 3⟩, swapG 6 7, swapG 8 0, swapG 5 6] := by
   refine ⟨?_, ?_, by decide⟩
   · intro g hg
@@ -253,25 +284,28 @@ example : (∀ g ∈ [⟨.other 1, [], [3], 2, 0⟩, ⟨.CNOT, [0], [5], 0, 3⟩
     · exact fun _ => rfl
     · exact fun h => absurd h (by decide)
 
-/-- gates without a classical condition are routed identically whether or not `fixes/C07-5.patch` is
-in place (so everything C13 proves about `toChain` holds for both) -/
-theorem condition_irrelevant_plain (cc : Bool) (N : Nat) (setup : Setup) (gs : List Route.Gate)
-    (hx : ∀ g ∈ gs, g.extra = 0) : toChainV (.rep cc) N setup gs = toChain N setup gs :=
-  toChainV_cc_irrelevant cc N setup gs hx
+/-- gates without a classical condition that are not RZX are routed identically whether or not
+`fixes/C07-5.patch` / `fixes/C13-3.patch` are in place (so everything C13 proves about `toChain` for its
+former class holds for every shape of the source) -/
+theorem condition_irrelevant_plain (cc rz : Bool) (N : Nat) (setup : Setup) (gs : List Route.Gate)
+    (hx : ∀ g ∈ gs, g.extra = 0) (ho : ∀ g ∈ gs, g.name.isOrd = false) :
+    toChainV (.rep cc rz) N setup gs = toChain N setup gs := by
+  rw [toChainV_cc_irrelevant cc rz N setup gs hx, toChainV_rz_irrelevant false rz N setup gs ho]
+  rfl
 
-example : toChainV (.rep true) 7 .circular [⟨.CNOT, [0], [4], 0, 0⟩] = toChain 7 .circular [⟨.CNOT, [0], [4], 0, 0⟩] :=
-  condition_irrelevant_plain true 7 .circular _ (by simp)
+example : toChainV (.rep true true) 7 .circular [⟨.CNOT, [0], [4], 0, 0⟩] = toChain 7 .circular [⟨.CNOT, [0], [4], 0, 0⟩] :=
+  condition_irrelevant_plain true true 7 .circular _ (by simp) (by simp [GName.isOrd])
 
 /-! ## `adjacent_gates` -/
 
 /-- `QubitCircuit.adjacent_gates` on a circuit of handled gates is the open-chain router
 (so (i)–(v) apply to it with `setup = linear`) … -/
-theorem adjacent_gates_eq_linear (cc : Bool) (N : Nat) (gs : List Route.Gate) (hh : ∀ g ∈ gs, Handled g) :
-    adjacentGatesV (.rep cc) gs = toChainV (.rep cc) N .linear gs := by
+theorem adjacent_gates_eq_linear (cc rz : Bool) (N : Nat) (gs : List Route.Gate) (hh : ∀ g ∈ gs, Handled g) :
+    adjacentGatesV (.rep cc rz) gs = toChainV (.rep cc rz) N .linear gs := by
   have : gs.any isMeas = false := by
     rw [List.any_eq_false]; intro g hg; simp [not_isMeas_of_handled (hh g hg)]
   simp only [adjacentGatesV, this]
-  exact adjLoop_eq_toChainV cc N gs hh
+  exact adjLoop_eq_toChainV cc rz N gs hh
 
 /-- … and it refuses circuits that contain a measurement. -/
 theorem adjacent_gates_refuses_measurement (v : Variant) (gs : List Route.Gate) (h : ∃ g ∈ gs, isMeas g = true) :
@@ -341,35 +375,35 @@ theorem swapLaws_C_full (N : Nat) (α : ℕ → ℝ) (oth : Route.Gate → Matri
 /-- **(v) over ℂ, one gate.** For every register size `N`, every `setup`, every well-formed
 handled gate: the product of the embedded complex matrices of the routed gates (later gates on
 the left) is the embedded matrix of the gate. -/
-theorem route_den_gate_C (N : Nat) (α : ℕ → ℝ) (oth : Route.Gate → Matrix (St N) (St N) ℂ) (cc : Bool)
-    (setup : Setup) (g : Route.Gate) (hw : WellFormed N g) (hh : Handled g)
+theorem route_den_gate_C (N : Nat) (α : ℕ → ℝ) (oth : Route.Gate → Matrix (St N) (St N) ℂ) (cc rz : Bool)
+    (setup : Setup) (g : Route.Gate) (hw : WellFormedV rz N g) (hh : HandledV rz g)
     (hp : PlainArg g) (hx : cc = false → g.extra = 0) (out : List Route.Gate)
-    (ho : routeGateV (.rep cc) N setup g = .ok out) :
-    den (interpC N α oth) out = interpC N α oth g := by
-  have := routeGateV_den_C α oth (fun _ => true) cc setup g hw hh hp hx out ho
+    (ho : routeGateV (.rep cc rz) N setup g = .ok out) :
+    den (interpCV rz N α oth) out = interpCV rz N α oth g := by
+  have := routeGateV_den_C α oth (fun _ => true) cc rz setup g hw hh hp hx out ho
   rwa [condInterp_true] at this
 
 /-- **(v) over ℂ, route_den.** The routed circuit is the same operator as the input circuit:
 for every `N`, every `setup`, every circuit of well-formed gates (CNOT/CSIGN without `arg_value`; no
 classical condition on a handled gate while the router drops conditions), every valuation of the
 SWAPalpha arguments and every interpretation `oth` of the gates the router passes through. -/
-theorem route_den_C (N : Nat) (α : ℕ → ℝ) (oth : Route.Gate → Matrix (St N) (St N) ℂ) (cc : Bool) (setup : Setup)
-    (gs : List Route.Gate) (hw : ∀ g ∈ gs, WellFormed N g)
-    (hp : ∀ g ∈ gs, Handled g → PlainArg g) (hx : cc = false → ∀ g ∈ gs, Handled g → g.extra = 0)
-    (out : List Route.Gate) (ho : toChainV (.rep cc) N setup gs = .ok out) :
-    den (interpC N α oth) out = den (interpC N α oth) gs := by
-  have := toChainV_den_C α oth (fun _ => true) cc setup gs hw hp hx out ho
+theorem route_den_C (N : Nat) (α : ℕ → ℝ) (oth : Route.Gate → Matrix (St N) (St N) ℂ) (cc rz : Bool) (setup : Setup)
+    (gs : List Route.Gate) (hw : ∀ g ∈ gs, WellFormedV rz N g)
+    (hp : ∀ g ∈ gs, HandledV rz g → PlainArg g) (hx : cc = false → ∀ g ∈ gs, HandledV rz g → g.extra = 0)
+    (out : List Route.Gate) (ho : toChainV (.rep cc rz) N setup gs = .ok out) :
+    den (interpCV rz N α oth) out = den (interpCV rz N α oth) gs := by
+  have := toChainV_den_C α oth (fun _ => true) cc rz setup gs hw hp hx out ho
   rwa [condInterp_true] at this
 
 /-- **(v) over ℂ with classical conditions** (`fixes/C07-5.patch`): for every classical state — every
 valuation `fire` of the conditions — the routed circuit is the same operator as the input circuit;
 conditioned gates included. -/
 theorem route_den_cond_C (N : Nat) (α : ℕ → ℝ) (oth : Route.Gate → Matrix (St N) (St N) ℂ) (fire : ℕ → Bool)
-    (setup : Setup) (gs : List Route.Gate) (hw : ∀ g ∈ gs, WellFormed N g)
-    (hp : ∀ g ∈ gs, Handled g → PlainArg g)
-    (out : List Route.Gate) (ho : toChainV (.rep true) N setup gs = .ok out) :
-    den (condInterp fire (interpC N α oth)) out = den (condInterp fire (interpC N α oth)) gs :=
-  toChainV_den_C α oth fire true setup gs hw hp (fun h => absurd h (by decide)) out ho
+    (rz : Bool) (setup : Setup) (gs : List Route.Gate) (hw : ∀ g ∈ gs, WellFormedV rz N g)
+    (hp : ∀ g ∈ gs, HandledV rz g → PlainArg g)
+    (out : List Route.Gate) (ho : toChainV (.rep true rz) N setup gs = .ok out) :
+    den (condInterp fire (interpCV rz N α oth)) out = den (condInterp fire (interpCV rz N α oth)) gs :=
+  toChainV_den_C α oth fire true rz setup gs hw hp (fun h => absurd h (by decide)) out ho
 
 /-- **Without `fixes/C07-5.patch` the clause fails for conditioned gates**: the router re-emits
 CNOT(0→1) *if classical bit condition 1* as an unconditional CNOT (`extra` 1 ↦ 0; two neighbours on
@@ -377,8 +411,8 @@ an open chain, no SWAP involved), and when the condition does not hold the route
 library CNOT matrix while the input circuit is the identity.  Confirmed on the real code
 (`qc.run(state, cbits=[0])` of input and output differ). -/
 theorem C07_counterexample_condition_dropped (α : ℕ → ℝ) (oth : Route.Gate → Matrix (St 2) (St 2) ℂ) :
-    toChainV (.rep false) 2 .linear [⟨.CNOT, [0], [1], 0, 1⟩] = .ok [⟨.CNOT, [0], [1], 0, 0⟩] ∧
-    toChainV (.rep true) 2 .linear [⟨.CNOT, [0], [1], 0, 1⟩] = .ok [⟨.CNOT, [0], [1], 0, 1⟩] ∧
+    (∀ rz, toChainV (.rep false rz) 2 .linear [⟨.CNOT, [0], [1], 0, 1⟩] = .ok [⟨.CNOT, [0], [1], 0, 0⟩]) ∧
+    (∀ rz, toChainV (.rep true rz) 2 .linear [⟨.CNOT, [0], [1], 0, 1⟩] = .ok [⟨.CNOT, [0], [1], 0, 1⟩]) ∧
     den (condInterp (fun _ => false) (interpC 2 α oth)) [⟨.CNOT, [0], [1], 0, 0⟩] ≠
       den (condInterp (fun _ => false) (interpC 2 α oth)) [⟨.CNOT, [0], [1], 0, 1⟩] := by
   refine ⟨by decide, by decide, ?_⟩
@@ -393,22 +427,36 @@ theorem C07_counterexample_condition_dropped (α : ℕ → ℝ) (oth : Route.Gat
 example (α : ℕ → ℝ) : interpH 2 α ⟨.CNOT, [0], [1], 0, 0⟩ = toMatD 2 GateE.cnot := interpH_cnot_two α
 
 example (α : ℕ → ℝ) (oth : Route.Gate → Matrix (St 9) (St 9) ℂ) :
-    den (interpC 9 α oth)
+    den (interpCV false 9 α oth)
       [swapG 5 6, swapG 8 0, swapG 6 7, ⟨.CNOT, [8], [7], 0, 0⟩, swapG 6 7, swapG 8 0, swapG 5 6] =
-    interpC 9 α oth ⟨.CNOT, [0], [5], 0, 0⟩ :=
-  route_den_gate_C 9 α oth false .circular ⟨.CNOT, [0], [5], 0, 0⟩
-    ⟨fun _ => ⟨0, 5, rfl, rfl, by decide, by decide, by decide⟩, fun h => absurd h (by decide)⟩
-    (Or.inl rfl) (fun _ => rfl) (fun _ => rfl) _ (by decide)
+    interpCV false 9 α oth ⟨.CNOT, [0], [5], 0, 0⟩ :=
+  route_den_gate_C 9 α oth false false .circular ⟨.CNOT, [0], [5], 0, 0⟩
+    ⟨⟨fun _ => ⟨0, 5, rfl, rfl, by decide, by decide, by decide⟩, fun h => absurd h (by decide)⟩,
+      fun h => absurd h (by decide)⟩
+    (Or.inl (Or.inl rfl)) (fun _ => rfl) (fun _ => rfl) _ (by decide)
+
+-- RZX (targets 3, 0: Z on qubit 3, X on qubit 0) on an open chain of four, with the repair `fixes/C13-3.patch`
+example (α : ℕ → ℝ) (oth : Route.Gate → Matrix (St 4) (St 4) ℂ) :
+    den (interpCV true 4 α oth) [swapG 0 1, swapG 2 3, ⟨.RZX, [], [2, 1], 7, 0⟩, swapG 2 3, swapG 0 1] =
+    interpCV true 4 α oth ⟨.RZX, [], [3, 0], 7, 0⟩ :=
+  route_den_gate_C 4 α oth false true .linear ⟨.RZX, [], [3, 0], 7, 0⟩
+    ⟨⟨fun h => absurd h (by decide), fun h => absurd h (by decide)⟩,
+      fun _ _ => ⟨3, 0, rfl, rfl, by decide, by decide, by decide⟩⟩
+    (Or.inr ⟨rfl, rfl⟩) (fun h => absurd h (by decide)) (fun _ => rfl) _ (by decide)
+
+example (α : ℕ → ℝ) (a x : ℕ) : interpH 2 α ⟨.RZX, [], [0, 1], a, x⟩ = mat2 (Gen.G.cls_RZX_ (α a)) :=
+  interpH_rzx_two α a x
 
 -- … and with a condition, through any other setup string, for every classical state
 example (α : ℕ → ℝ) (oth : Route.Gate → Matrix (St 4) (St 4) ℂ) (fire : ℕ → Bool) :
-    den (condInterp fire (interpC 4 α oth))
+    den (condInterp fire (interpCV false 4 α oth))
       [swapG 1 2, swapG 3 0, ⟨.CNOT, [3], [2], 0, 5⟩, swapG 3 0, swapG 1 2] =
-    den (condInterp fire (interpC 4 α oth)) [⟨.CNOT, [0], [1], 0, 5⟩] :=
-  route_den_cond_C 4 α oth fire .other [⟨.CNOT, [0], [1], 0, 5⟩]
+    den (condInterp fire (interpCV false 4 α oth)) [⟨.CNOT, [0], [1], 0, 5⟩] :=
+  route_den_cond_C 4 α oth fire false .other [⟨.CNOT, [0], [1], 0, 5⟩]
     (fun g hg => by
       simp only [List.mem_singleton] at hg; subst hg
-      exact ⟨fun _ => ⟨0, 1, rfl, rfl, by decide, by decide, by decide⟩, fun h => absurd h (by decide)⟩)
+      exact ⟨⟨fun _ => ⟨0, 1, rfl, rfl, by decide, by decide, by decide⟩, fun h => absurd h (by decide)⟩,
+        fun h => absurd h (by decide)⟩)
     (fun g hg _ => by simp only [List.mem_singleton] at hg; subst hg; exact fun _ => rfl) _ (by decide)
 
 end QipVerif.C07
